@@ -6,6 +6,7 @@ import FalconModel.RequestMedia
     new <kvs>                               -> ok <mapping>          Handlers(initial): update() on an empty object
     set <i> <k> <v> | del <i> <k> | clear <i> | ior <i> <kvs> | update <i> <kvs> | pop <i> <k>
       | setdefault <i> <k> <v> | popitem <i> | evict <i> <n>
+    fupdate <i> <kvs> | fior <i> <kvs>      -> raised <mapping>      update() / |= that raised after storing <kvs>
                                             -> ok <mapping> | keyerr <mapping>
     copy <i>                                -> ok <mapping of the new object>
     items <i>                               -> ok <mapping>
@@ -111,6 +112,16 @@ def step (os : Objs) (line : String) : Objs × String :=
   | ["clear", i] => mutate os i (.base .clear)
   | ["ior", i, kvs] => mutate os i (.base (.ior (parseKvs kvs)))
   | ["update", i, kvs] => mutate os i (.update (parseKvs kvs))
+  -- an operation that RAISED after storing `kvs` (observed): update() stores through __setitem__ (store + invalidation per item) ...
+  | ["fupdate", i, kvs] =>
+    withObj os i fun s =>
+      let s' := xstep resolveRule s (.update (parseKvs kvs))
+      (os.set! i.toNat! s', "raised " ++ showMap s'.data)
+  -- ... `|=` stores into the dict (dict.update is not atomic) and the `finally` clause of __ior__() invalidates on the failure exit too
+  | ["fior", i, kvs] =>
+    withObj os i fun s =>
+      let s' := (Mh.step true resolveRule s (.ior (parseKvs kvs))).1
+      (os.set! i.toNat! s', "raised " ++ showMap s'.data)
   | ["pop", i, k] => mutate os i (.pop (unhex k))
   | ["setdefault", i, k, v] => mutate os i (.setdefault (unhex k) v.toNat!)
   | ["popitem", i] =>
